@@ -330,7 +330,7 @@ def worker(job):
 def main(chk, tier, seed):
     chk.rule = RULE
     chk.assumptions = ["one global default route, symmetric routes (what the format can express)", "no variable cost functions (dcop_yaml does not write them; not in the statement)"]
-    n = 2400 if tier == "quick" else 24000
+    n = 2400 if tier == "quick" else 72000
     common.run_chunked(chk, "c14", n, nchunks=16 if tier == "quick" else 64, timeout=3000)
     chk.inconclusive_if(chk.counters.get("loads_compared", 0) < n and not chk.violations and not chk.known_seen, "too few loads compared")
 
